@@ -145,7 +145,15 @@ fn run(prop: &str, tier: &str, seed: u64, out: &str, corpus: Option<&str>) {
     let mut nontrivial = 0u64;
     let mut failures = 0u64;
     let mut samples: Vec<String> = vec![];
+    // the case being run, for the record if the process is killed by it (stack overflow, abort)
+    let mut current = std::fs::File::create(format!("{}/current.txt", out)).unwrap();
     for (idx, l) in lines.iter().enumerate() {
+        {
+            use std::io::Seek;
+            let _ = current.set_len(0);
+            let _ = current.seek(std::io::SeekFrom::Start(0));
+            let _ = current.write_all(l.as_bytes());
+        }
         let cr = exec::exec(prop, l);
         writeln!(cases, "{}", cr.line).unwrap();
         writeln!(implo, "{}", cr.result).unwrap();
@@ -169,6 +177,7 @@ fn run(prop: &str, tier: &str, seed: u64, out: &str, corpus: Option<&str>) {
             samples.push(exec::clip(&cr.line));
         }
     }
+    let _ = current.set_len(0);
     let mut stats = String::new();
     stats.push_str("{\n");
     stats.push_str(&format!("  \"cases\": {},\n  \"corpus_cases\": {},\n  \"distinct\": {},\n  \"distinct_nontrivial\": {},\n  \"oracle_failures\": {},\n", lines.len(), n_corpus, distinct.len(), nontrivial, failures));
